@@ -48,6 +48,8 @@ CONTENTS = {
     # both
     'Bb': [[ev(1, -1, 5.5), ev(2, 1, 4.0), ev(3, 2, 5.5)], [ev(4, -1, 4.0)], [], [ev(5, 0, 6.5), ev(6, 0, 6.5)]],
 }
+# per-bin totals beyond 255 and 65535 (one catalog alone: 300 in one bin; summed over catalogs: 70000)
+CONTENTS['H'] = [[ev(i, 0, 5.5) for i in range(40000)], [ev(40000 + i, 0, 5.5) for i in range(30000)] + [ev(70000 + i, 3, 6.5) for i in range(300)], []]
 OBS = [ev(101, 0, 5.5), ev(102, 3, 6.5)]
 
 OPS = ['IT', 'EC', 'NC', 'ER', 'SC', 'MC', 'cN', 'cS', 'cM', 'cPL', 'cRM', 'cMLL']
@@ -74,6 +76,12 @@ def cases(tier, seed):
             for fsp in (False, True):
                 for content in contents_for(fmag, fsp):
                     yield dict(kind='bfs', storage=storage, fmag=fmag, fsp=fsp, content=content, depth=depth)
+    # the caller announces more catalogs than the file lists (n_cat given to the constructor): every pass still defines n_cat
+    for storage in ('file_store', 'file_nostore'):
+        for content in ('A', 'E'):
+            yield dict(kind='bfs', storage=storage, fmag=False, fsp=(content == 'E'), content=content, depth=depth, hint=2)
+    # very many events per bin (every single operation on a fresh object and every pair of operations)
+    yield dict(kind='bfs', storage='mem', fmag=False, fsp=False, content='H', depth=1)
     # seed-selected extra complete block (quick): one configuration explored one level deeper
     if tier == 'quick':
         st = ('mem', 'file_store', 'file_nostore')[seed % 3]
@@ -121,6 +129,8 @@ def build(case, path):
     if case['storage'] == 'mem':
         cats = [fixtures.catalog(evs, region=reg, catalog_id=i, name='fc') for i, evs in enumerate(CONTENTS[case['content']])]
         return CatalogForecast(catalogs=cats, n_cat=len(cats), **kw)
+    if case.get('hint'):
+        kw['n_cat'] = len(CONTENTS[case['content']]) + case['hint']
     return csep.load_catalog_forecast(path, store=(case['storage'] == 'file_store'), **kw)
 
 
@@ -190,7 +200,7 @@ def canon(fc):
 def judge_obs(case, hist, op, obs, fresh, ref, failures, counters):
     """obs: observation after history `hist`; fresh: observation of the same op on a fresh object."""
     J = len(ref)
-    rep = dict(kind='single', storage=case['storage'], fmag=case['fmag'], fsp=case['fsp'], content=case['content'],
+    rep = dict(kind='single', storage=case['storage'], fmag=case['fmag'], fsp=case['fsp'], content=case['content'], hint=case.get('hint', 0),
                history=list(hist), op=op)
     site = f'CatalogForecast[{op}]'
 
@@ -217,7 +227,9 @@ def judge_obs(case, hist, op, obs, fresh, ref, failures, counters):
         if obs[1] != want:
             fail('counts-differ-from-single-pass', f'get_event_counts() = {obs[1]} expected {want}')
     elif op == 'NC':
-        if not (obs[1] == J or (obs[1] is None and not hist)):
+        passed = any(h in ('IT', 'EC', 'ER', 'SC', 'MC', 'cN', 'cS', 'cM', 'cPL', 'cRM', 'cMLL') for h in hist)
+        announced = (J + case['hint']) if case.get('hint') else None
+        if not (obs[1] == J or (obs[1] is None and not hist) or (not passed and obs[1] == announced)):
             fail('n_cat-wrong', f'n_cat = {obs[1]} expected {J}')
         if hist and any(h in ('IT', 'EC', 'ER', 'SC', 'MC', 'cN', 'cS', 'cM', 'cPL', 'cRM', 'cMLL') for h in hist) and obs[1] != J:
             fail('n_cat-wrong', f'n_cat = {obs[1]} after a complete pass, expected {J}')
